@@ -1,9 +1,9 @@
 //! C24 — Programs can only write memory they own.
 //!
-//! SPACE. All programs of length <= k over the 70-letter alphabet A24 (a letter = 1..3
+//! SPACE. All programs of length <= k over the 69-letter alphabet A24 (a letter = 1..3
 //! instructions; operands come from the progkit prelude plus a 12-instruction extra
 //! prelude loading MEM-8, the tx offset, lengths, a blob-id pointer, a balance-table
-//! pointer and a non-zero store value), each executed in three contexts on the real
+//! pointer, a pointer to two alt_bn128 points and a non-zero store value), each executed in three contexts on the real
 //! interpreter, instruction by instruction:
 //!   * `script`       — the program is the script body;
 //!   * `callee-bare`  — the program is the code of contract A, called from a script that
@@ -42,7 +42,12 @@
 //! exceeds MEM, touches never-allocated memory [high-water $sp, $hp), or (writes) is not
 //! fully owned, the step must be a VM panic whose reason is in the applicable set
 //! {MemoryOverflow, UninitalizedMemoryAccess, MemoryOwnership, MemoryWriteOverlap} (plus
-//! the opcode's documented non-memory reasons) and memory must be unchanged.
+//! the opcode's documented non-memory reasons) and memory must be unchanged. (SRDI writes
+//! only when the slot exists, so for it a missing panic is not reported; oracle 1 applies.)
+//! Every ownership-checked write site of the interpreter has a letter: SB/SQW/SHW/SW,
+//! MCL/MCLI/MCP/MCPI, S256/K256, ECK1/ECR1/ECOP, the six wide-integer families, CCP, BLDD,
+//! CB, BHSH, CROO, SRWQ, SRDI; plus PSHL/POPL, CFEI/CFSI, ALOC, LDC, CALL, TR/TRO/SMO, RET/RETD
+//! and loads LB/LW.
 //! Keys: `C24:<OP>:no-panic:<kind>`, `C24:<OP>:wrong-reason:<kind>` (kind = unowned |
 //! never-allocated | beyond-mem | read-never-allocated | read-beyond-mem | overlap),
 //! `C24:<OP>:faulting-access-changed-memory`.
